@@ -488,6 +488,9 @@ def run(ctx):
     if os.path.exists(os.path.join(common.COQ, "C14", "Model.vo")):
         hdr = ctx.header(["Model"])
         bad, log = ctx.eval_cases(hdr, "case", "check_case", coq_cases, shard=40)
+        if bad and os.environ.get("C14_DEBUG"):
+            with open(os.environ["C14_DEBUG"], "w") as f:
+                json.dump([{"case": cases[coq_idx[b]], "impl": results[coq_idx[b]], "coq": coq_cases[b]} for b in bad], f, indent=1)
         if bad:
             for b in bad[:5]:
                 i = coq_idx[b]
